@@ -41,6 +41,9 @@ def r04_1(ctx):
                              for k in ("SimpleShape", "DisjointShape")][:6]:
         J = [Obj("j0"), Obj("j1"), Obj("j2")]
         vals = {"j0": Fr(5), "j1": Fr(7), "j2": Fr(-3)}
+        if (a, b) == (2, 3):
+            # a figure drawn in small units: the integrals are tiny, and exact all the same
+            vals = {k: v / 10**18 for k, v in vals.items()}
         if kind == "SimpleShape":
             S = Obj("S", jordans=tuple(J), kind=kind)
         else:
@@ -67,7 +70,7 @@ def r04_1(ctx):
         except (Undecided, Raised) as ex:
             out.undecided(fn.qname, f"(a, b)=({a}, {b}) on a {kind}: {ex}", where=fn.where())
             continue
-        want = Fr(9, a + 1)
+        want = sum(vals.values()) / (a + 1)
         want_calls = sorted(((j._name, a + 1, b, nn) for j in J), key=str)
         got_calls = sorted(((c[0]._name,) + tuple(c[1:]) for c in calls), key=str)
         if got_calls != want_calls:
